@@ -10,6 +10,7 @@ def build_registry():
     sort_c.register_sort_loops(reg)
     sort_c.register_process_alignment(reg)
     view_c.register(reg)
+    view_c.register_selection(reg)
     gfa_c.register(reg)
     index_c.register(reg)
     return reg
